@@ -384,6 +384,12 @@ class Sim:
     def run(self):
         self.oracle.start(self)
         try:
+            # operations the user's script performs on the assembled actuator / strategy before calling run()
+            # (slot bar -2, phase "pre_run"): e.g. triggers attached from outside or in the strategy's constructor
+            if (-2, "pre_run") in self._ops_by_slot:
+                self.bar = -2
+                self.run_ops(-2, "pre_run")
+                self.bar = -1
             if self.scenario.get("opts", {}).get("drive") == "direct":
                 self._drive_directly()
             else:
